@@ -2,12 +2,12 @@
 """install_seed.py <agent out dir (contains m1..mK)> : confirm each candidate (tools/confirm_seed.py) and, if confirmed,
 copy it to /verif/seeded/<property>-m<k>/ (patch.diff, demo.diff, meta.json with the confirmation record)."""
 import json, os, shutil, subprocess, sys
-src = os.path.abspath(sys.argv[1]); slot = sys.argv[2] if len(sys.argv) > 2 else "c"
+src = os.path.abspath(sys.argv[1]); slot = sys.argv[2] if len(sys.argv) > 2 else "c"; tag = sys.argv[3] if len(sys.argv) > 3 else ""
 for k in sorted(os.listdir(src)):
     d = os.path.join(src, k)
     if not os.path.exists(os.path.join(d, "meta.json")): continue
     meta = json.load(open(os.path.join(d, "meta.json")))
-    name = f"{meta['property']}-{k}"
+    name = f"{meta['property']}-{tag}{k}"
     dst = f"/verif/seeded/{name}"
     if os.path.exists(dst): print(name, "already installed"); continue
     r = subprocess.run([sys.executable, "/verif/tools/confirm_seed.py", d, slot], capture_output=True, text=True)
